@@ -14,6 +14,17 @@ The theorems are about `FeatModel.Ser.serialize / deserialize / convert`, the fu
 The checkpoint theorems are about `cpSave / cpLoad / cpIndex / cpRestore` (the functions behind the driver's
 `cp` / `cpx` ops).  Text modes: see the end of this file.
 
+## Hypotheses that the driver evaluates on every case
+
+The decidable hypotheses of the round-trip theorems are part of the executable model and are evaluated by `drv_c05`
+on every correspondence case; a case violating one prints `HYP-FAIL …`, which can never equal the implementation
+output, so the check fails instead of silently running outside the theorems:
+`ImageOK` and `Representable` (`C05.binary_roundtrip_across_widths`) on every `raw`/`kind` case,
+`Exact7` for every value and `decide (CsrWF …)` on every case of the exact text stream (`C05.*_exact`,
+`C05.mtx_roundtrip_csr`).  Not proved: the BCSR MatrixMarket writer read by the CSR reader (`bcsrMtxWrite`,
+model-compared and judged by the oracle only — its entries are not written in row-major order, so the theorem needs
+the general sorted-insertion argument), symmetric-format files, `float` rounding of `atof`.
+
 ## What is modelled as unbounded, and what ties it to the C++
 
 * `Index` / `std::uint64_t` / `std::size_t` / `long` (array sizes, offsets `global_i`, header words, checkpoint lengths,
